@@ -125,6 +125,9 @@ def _norm(l):
     return l.scale(1 / abs(k))
 
 
+HUBS = frozenset(["UM"])
+
+
 class Num:
     """a conjunction of linear constraints"""
 
@@ -220,7 +223,8 @@ class Num:
         for alt in negate((kind, l)):
             q = alt[1]
             # only the constraints connected to the query through shared symbols matter (the base is feasible)
-            syms = set(q.t)
+            # hub symbols (usize::MAX bounds every unsigned value) do not connect components: using fewer hypotheses is sound
+            syms = set(q.t) - HUBS
             comp = []
             rest = list(les)
             grew = True
@@ -228,9 +232,10 @@ class Num:
                 grew = False
                 keep = []
                 for x in rest:
-                    if syms & set(x.t):
+                    xs = set(x.t) - HUBS
+                    if (syms & xs) or (not xs and (set(x.t) & set(q.t))):
                         comp.append(x)
-                        syms |= set(x.t)
+                        syms |= xs
                         grew = True
                     else:
                         keep.append(x)
